@@ -8,11 +8,18 @@ CP=/opt/veriftools/tla/tla2tools.jar:/opt/veriftools/tla/CommunityModules-deps.j
 mkdir -p out
 (cd harness && cargo build --release --offline --bin blinding 2>&1 | tail -1)
 harness/target/release/blinding ${1:---prove} > out/blinding.ndjson
+harness/target/release/blinding --dense > out/blinding_dense.ndjson
 cd spec
 timeout 600 java -Xss1g -Xmx6g -cp $CP tlc2.TLC -workers 8 -metadir ../out/tlc-mcbl -cleanup -noGenerateSpecTE \
   -config MCBlinding_std.cfg MCBlinding.tla | tail -4
 TRACE=../out/blinding.ndjson timeout 600 java -Xss1g -Xmx4g -cp $CP tlc2.TLC -workers 1 -metadir ../out/tlc-mcbt \
   -cleanup -noGenerateSpecTE -config BlindingTrace.cfg BlindingTrace.tla | grep -A8 BLINDING
+# dense sweep: 820 builds whose gate counts cross every boundary of the fixed point at degrees 2^7..2^10
+TRACE=../out/blinding_dense.ndjson timeout 600 java -Xss1g -Xmx4g -cp $CP tlc2.TLC -workers 1 -metadir ../out/tlc-mcbt \
+  -cleanup -noGenerateSpecTE -config BlindingTrace.cfg BlindingTrace.tla > ../out/blinding_dense.log
+grep -q 'Assumption.*is false' ../out/blinding_dense.log && { echo "dense trace rejected, see out/blinding_dense.log"; exit 1; }
+grep -q 'No error has been found' ../out/blinding_dense.log || { echo "dense trace: TLC did not finish"; exit 2; }
+echo "dense trace accepted"
 # canaries: blinding that forgets the final polynomial / treats Z like a wire polynomial must violate Hides
 for m in no_final_poly z_single; do
   timeout 300 java -Xss1g -Xmx4g -cp $CP tlc2.TLC -workers 4 -metadir ../out/tlc-mcbc -cleanup -noGenerateSpecTE \
